@@ -66,7 +66,7 @@ def _expected(shape, cfg):
         return [("dt", {"x": cfg["g.x"], "y": cfg["g.y"]})]
     if shape == "init_arg":
         return [("m.init_args.w", cfg["a"])] if cfg.get("m") is not None else []
-    return [(("lm", i, "init_args.w"), cfg["a"]) for i in range(len(cfg["lm"]))]
+    return [(("lm", i, "init_args.w"), cfg["a"]) for i in range(len(cfg["lm"])) if not cfg["lm"][i]["class_path"].endswith("NoW")]
 
 
 def _get(cfg, key):
@@ -88,7 +88,7 @@ def _has_target(shape, d):
     return any("w" in (it.get("init_args") or {}) for it in d.get("lm", []))
 
 
-def links(shape):
+def links(shape, shard=None, nshards=1):
     from jsonargparse import ArgumentError
 
     install_format_stubs()
@@ -118,14 +118,17 @@ def links(shape):
             n = S.choice("lm.len", 3)
             items = []
             for i in range(n):
-                spec = dict(class_path=("vf.fixtures.Base", "vf.fixtures.Sub1")[i % 2])
-                if given_target and i == 0:
+                ci = S.choice(f"lm{i}.class", 3)  # the third class does not take the linked parameter
+                spec = dict(class_path=("vf.fixtures.Base", "vf.fixtures.Sub1", "vf.fixtures.NoW")[ci])
+                if given_target and i == 0 and ci != 2:
                     spec["init_args"] = dict(w=tval)
                 items.append(spec)
             obj["lm"] = items
         elif given_target:
             key = {"plain": "b", "compute2": "d", "group_to_dict": "dt"}[shape]
             obj[key] = tval if shape != "group_to_dict" else {"x": tval}
+        if shard is not None and S.shard(nshards) != shard:
+            return None
         try:
             cfg = parser.parse_object(obj)
         except ArgumentError:
@@ -283,8 +286,16 @@ def main(rep, tier):
         "a value supplied for the target itself may be rejected or overwritten; if the parse succeeds the target must equal the function of the sources",
         "links applied on instantiation belong to C16",
     ]
-    results = run_jobs([dict(module="c15", func="links", kwargs=dict(shape=s), timeout=300 if tier == "quick" else 900) for s in SHAPES])
-    fails = absorb(rep, results, require_tags=("accepted", "targets=1"))
+    jobs = []
+    for s_ in SHAPES:
+        n = {"list_items": 10, "init_arg": 3}.get(s_, 1)
+        for sh in range(n):
+            kw = dict(shape=s_)
+            if n > 1:
+                kw.update(shard=sh, nshards=n)
+            jobs.append(dict(module="c15", func="links", kwargs=kw, timeout=300 if tier == "quick" else 900))
+    results = run_jobs(jobs)
+    fails = absorb(rep, results, require_tags=("accepted", "targets=1", "targets=2"))
     # static part
     bad = static_checks_native()
     rep.evaluations += 1
